@@ -1098,8 +1098,8 @@ func TestVerif_C40_Outlier(t *testing.T) {
 	const P = "C40"
 	r := vk.Start(t, "c40_outlier", "model_checking", P)
 	defer r.Finish()
-	r.Rule(P, "breadth-first over ALL event histories up to the depth bound in 4 scenarios (alphabet restrictions of: bulk call results per endpoint {4 ok, 4 failed, 2+2, 3 failed} injected through the Done callback of the real wrapped picker; interval tick = advance virtual time by the interval; config change among {no-op, failure-percentage, failure-percentage with max_ejection_percent 50 / 25, success-rate, both}; resolver update toggling membership of one endpoint of {e0..e3}, incl. a currently ejected one); enforcement 100 % and 0 %. Each history runs on a fresh real outlier-detection balancer (built through its builder, stub child policy with one READY subchannel + health listener per endpoint) in a synctest bubble next to an exact-arithmetic reference A50 model; after every event: per-endpoint ejected/timestamp/multiplier/active counters equal the model both ways, the child sees TRANSIENT_FAILURE exactly for ejected endpoints, numEndpointsEjected == |ejected ∩ current endpoints|. A state = real private state (per-endpoint counters, ejection age, multiplier, numEndpointsEjected, timer armed) + model state; distinct states are the non-trivial cases")
-	r.Assume(P, "enforcement percentages 100 and 0 only, so the math/rand/v2 draw (rand.Int32N(100), no seam in the package) cannot influence the result; every event happens on the 10 s interval grid; subchannels are READY with a registered health listener before they can be ejected")
+	r.Rule(P, "breadth-first over ALL event histories up to the depth bound (6 quick / 9 thorough; 11 / 14 for the small-alphabet un-ejection scenario) in 5 scenarios (alphabet restrictions of: bulk call results per endpoint {4 ok, 4 failed, 2+2, 3 failed} injected through the Done callback of the real wrapped picker; interval tick = advance virtual time by the interval; config change among {no-op, failure-percentage, failure-percentage with max_ejection_percent 50 / 25, success-rate, both, success-rate enforced + failure-percentage unenforced}; resolver update toggling membership of one endpoint of {e0..e3}, incl. a currently ejected one); enforcement 100 % and 0 %. Each history runs on a fresh real outlier-detection balancer (built through its builder, stub child policy with one READY subchannel + health listener per endpoint) in a synctest bubble next to an exact-arithmetic reference A50 model; after every event: per-endpoint ejected/timestamp/multiplier/active counters equal the model both ways, the child sees TRANSIENT_FAILURE exactly for ejected endpoints, numEndpointsEjected == |ejected ∩ current endpoints|. A state = real private state (per-endpoint counters, ejection age, multiplier, numEndpointsEjected, timer armed) + model state; distinct states are the non-trivial cases")
+	r.Assume(P, "enforcement percentages 100 and 0 only (also mixed per algorithm), so the math/rand/v2 draw (rand.Int32N(100), no seam in the package) cannot influence the result; every event happens on the 10 s interval grid; subchannels are READY with a registered health listener before they can be ejected")
 	r.Assume(P, "when the A50 outcome depends on the (unspecified, map-ordered) processing order of several candidates under the max-ejection gate, or on an exact success-rate tie, the real outcome must be one of the allowed ones and the history is not extended (counted as outcome 'order-dependent-outcome(cut)')")
 	r.Assume(P, "failure_percentage minimum_hosts is read as 'endpoints with at least request_volume' (current A50 text)")
 	drift := &c40Drift{}
